@@ -88,7 +88,7 @@ TracePurge == /\ IsEvent("Purge")
               /\ m' = PurgeSpec(m)
               /\ UNCHANGED <<lock, Hz, last>>
 
-Headline(e) == <<e.glob.aref, e.glob.vgross, e.glob.vnet, e.k.K, e.n50.n50, e.n50.n50ref, e.q.q, e.q.Q>>
+Headline(e) == <<e.glob.aref, e.glob.vgross, e.glob.vnet, e.k.K, e.k.Kneg, e.n50.n50, e.n50.n50ref, e.q.q, e.q.Q>>
 Sane(x) == LinksClosed(x) /\ AllUnique(x)
 
 \* C14 + C08..C11: the computation is total, and what it reports is what the definitions give
